@@ -125,3 +125,37 @@ V("c14-default-subcircuit-alias", "C14", BASE, "                self._subcircuit
 V("c14-benign-values-first", "C14", BASE,
   "            .set_lower_limits(**self.get_lower_limits())\n            .set_values(**self.get_values())\n            .set_fixed(**self.are_fixed())",
   "            .set_lower_limits(**self.get_lower_limits())\n            .set_fixed(**self.are_fixed())\n            .set_values(**self.get_values())", "silent")
+
+REG = "circuit/registry.py"
+FIT = "analysis/fitting.py"
+TIKZ = "circuit/diagrams/circuitikz.py"
+SCHEM = "circuit/diagrams/schemdraw.py"
+
+# ---------------------------------------------------------------- C15
+V("c15-private-regress", "C15", REG, "        key: str\n        for key in list(_PRIVATE_ELEMENTS.keys()):\n            if key not in _DEFAULT_ELEMENTS:\n                del _PRIVATE_ELEMENTS[key]\n", "", "fire", "does-not-restore:_PRIVATE_ELEMENTS")
+V("c15-remove-default-guard", "C15", REG, "    for element in elements:\n        if element in default_elements:\n            raise ValueError(\n                f\"Expected a user-defined element instead of one of the default elements {element=}\"\n            )\n\n", "", "fire", "remove_elements:default-guard")
+V("c15-duplicate-guard", "C15", REG, "    if not (symbol not in _ELEMENTS or _ELEMENTS[symbol] == Class):\n        raise KeyError(\n            f\"An element with the symbol '{symbol}' ({_ELEMENTS[symbol]}) has already been registered before this attempt to register '{Class}'!\"\n        )\n\n", "", "fire", "duplicate-guard")
+V("c15-validation-skipped", "C15", REG, "    if kwargs.get(\"validate_impedances\", _VALIDATE_IMPEDANCES):\n        _validate_impedances(Class)\n", "    if kwargs.get(\"validate_impedances\", False):\n        _validate_impedances(Class)\n", "fire", "_initialize_element:validation")
+V("c15-imag-not-compared", "C15", REG, "    if not allclose(Z_func.imag, Z_sympy.imag):\n        raise ValueError(\n            f\"The imaginary parts of the results of the _impedance method and SymPy expression do not match for '{Class}'!\"\n        )\n", "", "fire", "_validate_impedances:comparison")
+V("c15-tokenizer-uppercase", "C15", "circuit/tokenizer.py", "            valid_chars = ascii_lowercase + digits + \"_\"\n", "            valid_chars = ascii_letters + digits + \"_\"\n", "fire", "alphabet:uppercase")
+V("c15-import-time-table", "C15", "circuit/parser.py", "Stackable = Union[Token, Element, Connection]\n", "Stackable = Union[Token, Element, Connection]\n_TABLE = get_elements(private=True)\n", "fire", "import-time-snapshot")
+V("c15-benign-iterate-items", "C15", REG, "        for key in list(_ELEMENTS.keys()):\n            if _ELEMENTS[key] is element:", "        for key, _value in list(_ELEMENTS.items()):\n            if _value is element:", "silent")
+
+# ---------------------------------------------------------------- C16
+V("c16-fit-ids-not-running", "C16", FIT, "    for element, ident in circuit.generate_element_identifiers(running=True).items():\n        identifiers[element] = {}", "    for element, ident in circuit.generate_element_identifiers(running=False).items():\n        identifiers[element] = {}", "fire", "generate_fit_identifiers:running-flag")
+V("c16-separator", "C16", FIT, "            identifiers[element][symbol] = f\"{symbol}_{ident}\"", "            identifiers[element][symbol] = f\"{symbol}-{ident}\"", "fire", "writers:separator")
+V("c16-sympy-running", "C16", "circuit/circuit.py", "            identifiers=self.generate_element_identifiers(running=True),", "            identifiers=self.generate_element_identifiers(running=False),", "fire", "Circuit.to_sympy:running-flag")
+V("c16-reader-split", "C16", FIT, "            variable_name, _ = variable_name.rsplit(\"_\", 1)", "            variable_name, _ = variable_name.split(\"_\", 1)", "fire", "_extract_parameters:reader")
+V("c16-count-from-zero", "C16", BASE, "            symbol: str = element.get_symbol()\n            i: int = counts[symbol] + 1\n            counts[symbol] = i\n            identifiers[element] = i\n\n        return identifiers", "            symbol: str = element.get_symbol()\n            i: int = counts[symbol]\n            counts[symbol] = i + 1\n            identifiers[element] = i\n\n        return identifiers", "fire", "Connection.generate_element_identifiers:counts")
+V("c16-name-rule", "C16", FIT, "            element_name = f\"{symbol}_{external_identifiers[element]}\"", "            element_name = f\"{symbol}_{internal_id}\"", "fire", "element-name:rule")
+V("c16-validate-late", "C16", FIT, "    if not isinstance(circuit, Circuit):\n        raise TypeError(f\"Expected a Circuit instead of {circuit=}\")\n    else:\n        validate_circuit(circuit)\n", "    if not isinstance(circuit, Circuit):\n        raise TypeError(f\"Expected a Circuit instead of {circuit=}\")\n", "fire", "validate_circuit:duplicates")
+V("c16-benign-local-name", "C16", FIT, "    for element, ident in circuit.generate_element_identifiers(running=True).items():\n        identifiers[element] = {}", "    for element, ident in circuit.generate_element_identifiers(running=True).items():\n        identifiers[element] = dict()", "silent")
+
+# ---------------------------------------------------------------- C20
+V("c20-draw-series-no-parallel", "C20", SCHEM, "            elif isinstance(elem_con, Parallel):\n                if not outermost:\n                    drawing.add(elm.Line(l=0.5).right())\n                draw_parallel(elem_con, drawing)\n                if not outermost or (\n                    i < len(elements) - 1 and isinstance(elements[i + 1], Parallel)\n                ):\n                    drawing.add(elm.Line(l=0.5).right())\n\n", "", "fire", "draw_series:missing-Parallel")
+V("c20-tikz-skip-element", "C20", TIKZ, "                w, h = phase_1_element(element_connection, x, y + height)\n                if w > width:\n                    width = w\n                height += h\n", "                w, h = (1.0, 1.0)\n                if w > width:\n                    width = w\n                height += h\n", "fire", "phase_1_parallel:element-emit")
+V("c20-end-missing", "C20", TIKZ, "    source: str = \"\\n  \".join(lines) + \"\\n\\\\end{circuitikz}\"", "    source: str = \"\\n  \".join(lines)", "fire", "to_circuitikz:framing")
+V("c20-pop-condition", "C20", SCHEM, "            if i > 0:\n                drawing.add(elm.Line(l=heights[i - 1]).up())\n                drawing.pop()", "            if i > 1:\n                drawing.add(elm.Line(l=heights[i - 1]).up())\n                drawing.pop()", "fire", "draw_parallel:push-pop")
+V("c20-latex-substitute", "C20", "circuit/circuit.py", "        return f\"Z = {latex(self.to_sympy(substitute=False))}\"", "        return f\"Z = {latex(self.to_sympy(substitute=True))}\"", "fire", "Circuit.to_latex:source")
+V("c20-sympy-skip-container", "C20", "circuit/series.py", "            if isinstance(element, Container) or isinstance(element, Connection):\n                expr += element.to_sympy(substitute=substitute, identifiers=identifiers)\n            elif isinstance(element, Element):", "            if isinstance(element, Container):\n                expr += element.to_sympy(substitute=substitute, identifiers=identifiers)\n            elif isinstance(element, Element):", "fire", "Series.to_sympy:missing")
+V("c20-benign-reorder-arms", "C20", SCHEM, "            if isinstance(elem_con, Element):\n                draw_element(elem_con, drawing)\n            elif isinstance(elem_con, Series):\n                draw_series(elem_con, drawing)\n            elif isinstance(elem_con, Parallel):\n                draw_parallel(elem_con, drawing)\n            else:", "            if isinstance(elem_con, Series):\n                draw_series(elem_con, drawing)\n            elif isinstance(elem_con, Element):\n                draw_element(elem_con, drawing)\n            elif isinstance(elem_con, Parallel):\n                draw_parallel(elem_con, drawing)\n            else:", "silent")
